@@ -175,3 +175,162 @@ UNITS = [
          cfg=_cfg_policy, self_cls="ExceptionRetryPolicy"),
     Unit("eval_policy", "retry.eval_policy", ["C05", "C06", "C18"], _setup_eval, _post_eval, cfg=_cfg_eval),
 ]
+
+
+# ---- RetryExecutor._delegate_callback -------------------------------------------------------------
+JOB_FIELDS = {"policy", "future", "attempt", "when", "fn", "args", "kwargs", "old_delegate"}
+EXEC_STABLE = {"_log", "_delegate", "_default_retry_policy", "_submit_event", "_name", "_submit_thread", "_shutdown", "_jobs"}
+
+
+def _cfg_exec():
+    cfg = make_cfg()
+    cfg.stable |= JOB_FIELDS | EXEC_STABLE            # job records are immutable but for stop_retry; executor fields set in __init__
+    # `delegate_future` is immutable on job records but mutable on RetryFuture: keep the two heap arrays apart
+    cfg.field_alias[("RetryJob", "delegate_future")] = "RetryJob.delegate_future"
+    cfg.stable |= {"RetryJob.delegate_future"}
+    cfg.protected.update({"_jobs": "_lock", "stop_retry": "_lock",
+                          "$fstate": "_me_lock", "$fresult": "_me_lock", "$fexc": "_me_lock", "delegate_future": "_me_lock"})
+    cfg.contracts["more_executors._impl.common._Future._me_invoke_callbacks"] = RecordCall()
+
+    def opaque_result(engine, st, fr, ev, ret, node):
+        # documented contract of RetryPolicy.sleep_time: returns a number of seconds
+        if ev.meth == "sleep_time":
+            st.assume(engine.ty_formula(st, ret.t, "num"))
+            return engine.typed(st, ret.t, "num", assume=False)
+        return None
+    cfg.opaque_result = opaque_result
+
+    def rely(engine, st, old, why):
+        O = lambda name: old[name] if name in old else st.arr(name)
+        for (sid, J0, d, fut) in getattr(cfg, "inflight", []):
+            # rely[everyone but cb(d)] (Appendix B): the in-flight job of delegate d stays in _jobs until d's
+            # callback removes it, and nobody adds another job for d
+            lid = Val.id(st.get("_jobs", sid))
+            if why in ("acquire", "loop") or st.n_interf <= 4:
+                k = fresh("k_inflight", I)
+                st.assume(z3.And(k >= 0, k < st.get("$len", lid), z3.Select(st.get("$at", lid), k) == J0))
+            st.assume(st.get("$len", lid) >= 0)
+            # R6: while d is not cancelled the job's future cannot be cancelled (cancel succeeds only through d.cancel())
+            os_, ns = z3.Select(O("$fstate"), fut), st.fstate(fut)
+            st.assume(z3.Implies(z3.Not(st.cancelled(d)), ns == os_))
+            st.assume(ns != RUNNING)
+            # stop_retry of an in-flight job is monotone
+            st.assume(z3.Implies(Val.b(z3.Select(O("stop_retry"), Val.id(J0))), Val.b(st.get("stop_retry", Val.id(J0)))))
+            st.assume(Val.is_boolv(st.get("stop_retry", Val.id(J0))))
+    cfg.after_interfere = rely
+
+    def find_inv(engine, st, fr, ctx):
+        at, i = ctx["src"]["at"], ctx["i"]
+        d = engine.to_val(st, st.envs[fr.eid]["delegate_future"])
+        j = z3.Int("j!dcb")
+        fj = st.envs[fr.eid]["found_job"]
+        return [("no earlier job belongs to this delegate", z3.ForAll([j], z3.Implies(z3.And(j >= 0, j < i), st.get("RetryJob.delegate_future", Val.id(z3.Select(at, j))) != d))),
+                ("nothing found yet", z3.BoolVal(fj is None) if not isinstance(fj, Z) else Val.is_none(fj.t))]
+    cfg.loops[("more_executors._impl.retry.RetryExecutor._delegate_callback", 0)] = LoopSpec(
+        invariant=find_inv, heap_modifies=[], local_types={"found_job": OPT(INST("RetryJob"))})
+
+    def pop_inv(engine, st, fr, ctx):
+        at, i = ctx["src"]["at"], ctx["i"]
+        job = engine.to_val(st, st.envs[fr.eid]["job"])
+        j = z3.Int("j!pop")
+        return [("the job is not among the earlier entries", z3.ForAll([j], z3.Implies(z3.And(j >= 0, j < i), z3.Select(at, j) != job)))]
+    cfg.loops[("more_executors._impl.retry.RetryExecutor._pop_job", 0)] = LoopSpec(invariant=pop_inv, heap_modifies=[])
+    return cfg
+
+
+def _setup_dcb(engine, st):
+    ex = sym_inst(engine, st, "RetryExecutor", "executor")
+    sid = Val.id(ex.t)
+    d = sym_val(engine, st, "future", "delegate_future")
+    did = Val.id(d.t)
+    st.assume(st.done(did))                                # F3
+    J0 = sym_inst(engine, st, "RetryJob", "inflight_job")   # ghost: the in-flight job of d (R3/R9: exactly one)
+    jid = Val.id(J0.t)
+    st.assume(st.get("RetryJob.delegate_future", jid) == d.t)
+    fut = engine.typed(st, st.get("future", jid), INST("RetryFuture"))
+    fid = Val.id(fut.t)
+    engine.touch_future(st, fid)
+    st.assume(fid != did)
+    lst = engine.typed(st, st.get("_jobs", sid), ("list", INST("RetryJob")))
+    lid = Val.id(lst.t)
+    k0 = fresh("k0", I)
+    j = z3.Int("j!uniq")
+    at = st.get("$at", lid)
+    st.assume(z3.And(k0 >= 0, k0 < st.get("$len", lid), z3.Select(at, k0) == J0.t))
+    st.assume(z3.Or(st.pending(fid), st.cancelled(fid)))
+    st.assume(z3.Implies(z3.Not(st.cancelled(did)), st.pending(fid)))          # R6
+    st.assume(Val.is_intv(st.get("attempt", jid)))
+    st.assume(Val.is_boolv(st.get("stop_retry", jid)))
+    st.assume(Val.is_none(st.get("when", jid)))                                   # R3: in-flight <=> when is None
+    # R9 / E1: a delegate future belongs to exactly one job record, ever (constructed once in _submit_now)
+    o = z3.Int("o!uniq")
+    st.assume(z3.ForAll([o], z3.Implies(st.get("RetryJob.delegate_future", o) == d.t, o == jid)))
+    engine.cfg.inflight = [(sid, J0.t, did, fid)]
+    engine.cfg.job_removed = False
+    # uniqueness: no other job carries d (delegate futures are fresh per submission, E1) -- kept by the rely
+    engine.cfg.uniq = (lid, d.t, J0.t)
+    ctx = {"ex": ex, "sid": sid, "d": d, "did": did, "J0": J0, "jid": jid, "fid": fid, "fut": fut,
+           "d_cancelled": st.cancelled(did), "d_exc": st.fexc(did), "d_res": st.fresult(did),
+           "fn": st.get("fn", jid), "args": st.get("args", jid), "kwargs": st.get("kwargs", jid), "policy": st.get("policy", jid),
+           "attempt": st.get("attempt", jid)}
+    return [ex, d], {}, ctx
+
+
+def _post_dcb(engine, st, ctx, out):
+    sid, did, jid, fid = ctx["sid"], ctx["did"], ctx["jid"], ctx["fid"]
+    cl = [("no exception escapes the delegate's done-callback", "EX", not isinstance(out, Raise), ["C18", "C05"])]
+    if isinstance(out, Raise):
+        return cl
+    pol = [e for e in st.trace if e.kind == "call" and e.meth in ("should_retry", "sleep_time")]
+    res = [e for e in st.trace if e.kind == "resolve"]
+    pops = [e for e in st.trace if e.kind == "popped"]
+    apps = [(i, e) for i, e in enumerate(st.trace) if e.kind == "mutate" and e.meth == "append" and "._append_job" in (e.site or "")]
+    sets = [i for i, e in enumerate(st.trace) if e.kind == "event-set"]
+    qdec = [e for e in st.trace if e.kind == "metric" and e.callee == "RETRY_QUEUE" and e.meth == "dec"]
+    qinc = [e for e in st.trace if e.kind == "metric" and e.callee == "RETRY_QUEUE" and e.meth == "inc"]
+    if any(a == "delegate_future.cancelled()" and b for a, b in st.decisions):
+        cl.append(("cancelled attempt: the policy is not consulted and nothing is re-submitted", "PC", z3.BoolVal(not pol and not apps), ["C05", "C06"]))
+        cl.append(("cancelled attempt: its job record is dropped (no reference to a finished attempt is kept)", "PC",
+                   z3.BoolVal(len(pops) == 1 and len(qdec) == 1), ["C12", "C20"]))
+        return cl
+    cl.append(("the policy is consulted with this job's attempt number (at most once per finished attempt)", "PC",
+               z3.And([z3.And(e.callee == ctx["policy"], e.args[0] == ctx["attempt"], e.args[1] == ctx["d"].t) for e in pol] +
+                      [z3.BoolVal(len([e for e in pol if e.meth == "should_retry"]) <= 1)]), ["C05"]))
+    if apps:
+        # retry branch
+        nj = Val.id(apps[0][1].args[0])
+        clock = st.ghost.get("clock_reads", [])
+        sl = [e for e in pol if e.meth == "sleep_time"]
+        cl.append(("retry: the returned future is not resolved before the final attempt", "PC", z3.BoolVal(not res), ["C05", "C02"]))
+        cl.append(("retry: the finished attempt's job is replaced by exactly one idle job (queue gauge balanced)", "PC",
+                   z3.And(z3.BoolVal(len(pops) == 1 and len(apps) == 1 and len(qdec) == 1 and len(qinc) == 1), pops[0].args[0] == ctx["J0"].t if pops else False), ["C05", "C20", "C12"]))
+        cl.append(("retry: the new job carries the same future, callable, arguments, policy and attempt count, and no delegate", "PC",
+                   z3.And(st.get("future", nj) == ctx["fut"].t, st.get("fn", nj) == ctx["fn"], st.get("args", nj) == ctx["args"],
+                          st.get("kwargs", nj) == ctx["kwargs"], st.get("policy", nj) == ctx["policy"], st.get("attempt", nj) == ctx["attempt"],
+                          Val.is_none(st.get("RetryJob.delegate_future", nj)), st.get("old_delegate", nj) == ctx["d"].t), ["C05", "C01"]))
+        if sl and clock:
+            w = st.get("when", nj)
+            wnum = z3.If(Val.is_intv(w), z3.ToReal(Val.i(w)), Val.r(w))
+            slv = sl[0].ret
+            slnum = z3.If(Val.is_intv(slv), z3.ToReal(Val.i(slv)), Val.r(slv))
+            cl.append(("retry: next attempt is due at (clock when the attempt finished) + policy.sleep_time", "PC",
+                       z3.Implies(z3.Or(Val.is_intv(slv), Val.is_realv(slv)), z3.And(z3.Not(Val.is_none(w)), wnum == clock[-1] + slnum)), ["C05"]))
+        cl.append(("retry: a cancel request seen so far is inherited by the new job (stop_retry)", "PC",
+                   z3.Implies(Val.b(st.get("stop_retry", jid)), Val.b(st.get("stop_retry", nj))), ["C06", "C05"]))
+        cl.append(("W1 signal-after-change: the submit thread is woken after the idle job was queued", "WK",
+                   z3.BoolVal(bool(sets) and max(sets) > apps[0][0]), ["C05", "C03"]))
+        return cl
+    # final branch: resolve the future with the attempt's own outcome
+    mine = [e for e in res if z3.is_true(z3.simplify(e.recv == fid))]
+    cl.append(("final attempt: the future is resolved exactly once, with this attempt's outcome (same objects)", "PC",
+               z3.And(z3.BoolVal(len(mine) == 1 and len(res) == 1),
+                      z3.If(Val.is_none(ctx["d_exc"]),
+                            z3.And(z3.BoolVal(mine[0].meth == "set_result"), mine[0].args[0] == ctx["d_res"]) if mine else False,
+                            z3.And(z3.BoolVal(mine[0].meth == "set_exception"), mine[0].args[0] == ctx["d_exc"]) if mine else False)), ["C05", "C01"]))
+    cl.append(("final attempt: the job record is dropped (queue gauge decremented once)", "PC",
+               z3.And(z3.BoolVal(len(pops) == 1 and len(qdec) == 1 and not qinc), pops[0].args[0] == ctx["J0"].t if pops else False), ["C12", "C20", "C05"]))
+    return cl
+
+
+UNITS.append(Unit("RetryExecutor._delegate_callback", "retry.RetryExecutor._delegate_callback",
+                  ["C05", "C01", "C02", "C03", "C06", "C12", "C18", "C20"], _setup_dcb, _post_dcb, cfg=_cfg_exec, self_cls="RetryExecutor"))
